@@ -296,7 +296,7 @@ func runProp(w *World, p *Prop, tier string, seed int, known *Known, verbose, wr
 		"seed":        seed,
 		"level":       p.Level,
 		"coverage":    cov,
-		"assumptions": p.Assumptions,
+		"assumptions": nonNilStrings(p.Assumptions),
 		"wall_s":      wall,
 		"violations":  len(viol),
 	}
@@ -367,4 +367,11 @@ func (k *Known) match(prop, rule, key string) *KnownEntry {
 		}
 	}
 	return nil
+}
+
+func nonNilStrings(x []string) []string {
+	if x == nil {
+		return []string{}
+	}
+	return x
 }
